@@ -1,8 +1,8 @@
 import Gmx.Model.Discount
 import Gmx.Driver.Util
--- ENGINE disc discEngine stateless
+-- ENGINE disc DiscE.discEngine stateless
 /-! driver engine `disc` — C31 (order-fee discount, program and SDK transcriptions) -/
-namespace Gmx.Drv
+namespace Gmx.Drv.DiscE
 open Gmx Gmx.Discount
 
 def discUnit : Nat := 10 ^ 20
@@ -32,4 +32,4 @@ def discEngine (args : List String) : String :=
     | _, _, _ => "bad-op"
   | _ => "bad-op"
 
-end Gmx.Drv
+end Gmx.Drv.DiscE
